@@ -104,5 +104,49 @@ func cmdOptList(args []string) int {
 			}
 		}
 	}
+	// literal lists (no tag): the whole-engine side of the inference model (finding F17); homogeneous ones must run
+	for _, lit := range []string{`[{a: 1}, {b: x}]`, `[{}, {a: 1}]`, `[[{a: 1}], [{b: 1}]]`, `[{a: 1}, {a: 2}]`, `[[a], [b, c]]`, `[]`, `{k: [{a: 1}, {a: 2, b: 3}]}`} {
+		id := fmt.Sprintf("optlist-%d", i)
+		i++
+		text := "version: v0.2.0\ninput:\n  root: RootObject\n  objects:\n    RootObject:\n      id: RootObject\n      properties: {}\n" +
+			"steps:\n  v:\n    plugin:\n      src: v\n      deployment_type: builtin\n    step: op\n    input:\n      s: y\n" +
+			"outputs:\n  success:\n    r: " + lit + "\n    s: !expr $.steps.v.outputs.success.s\n"
+		out := map[string]any{"kind": "optlist", "id": id, "tag": "literal", "position": lit, "source_produced": true, "yaml": text, "key": id}
+		s := newScript()
+		currentScript.Store(s)
+		g := guarded(30*time.Second, func() {
+			reg, f, err := newRegistry(nil)
+			if err != nil {
+				out["skip"] = "registry: " + err.Error()
+				return
+			}
+			s.probe.Store(true)
+			prepared, err := prepareYAML(reg, f, text, nil)
+			s.probe.Store(false)
+			if err != nil {
+				out["prepare_err"] = err.Error()
+				return
+			}
+			out["accepted"] = true
+			ctx, cancel := context.WithTimeout(context.Background(), 20*time.Second)
+			defer cancel()
+			oid, data, err := prepared.Execute(ctx, map[string]any{})
+			out["output_id"] = oid
+			if err != nil {
+				out["err"] = err.Error()
+				out["err_class"] = classifyExecErr(err)
+				return
+			}
+			out["returned"] = fmt.Sprintf("%v", data)
+			out["nil_element"] = hasNilElement(data)
+		})
+		if g.Panic != "" {
+			out["panic"] = g.Panic
+		}
+		if g.Timeout {
+			out["timeout"] = true
+		}
+		w.emit(out)
+	}
 	return 0
 }
